@@ -2842,6 +2842,15 @@ class FnTranslator:
             e = self.expr(n)
             if e[0] == 'call' and e[-1][0] == 'ptr':
                 return self.eig_of_lv(('deref', e, e[-1][1]), e[-1][1])
+            if e[0] == 'call' and e[-1][0] == 'eigdyn':
+                shp = (self.prog.options.get('dyn_returns') or {}).get(name)
+                if shp:
+                    # bounded stand-in: the spec states the size of the dynamic-size value this repository method returns
+                    t2 = ('eig', e[-1][1], shp[0], shp[1])
+                    nm = self.tmp(t2)
+                    self.pre.append(('decl', nm, t2, e[:-1] + (t2,)))      # the call is evaluated once, into a temporary
+                    e = ('var', nm, t2)
+                    self.rule('dynamic-size Eigen value returned by %s read with the size the spec binds it to (bounded stand-in)' % name)
             return self.eig_of_lv(e, e[-1])
         if k == 'CallExpr':
             callee = self.callee_decl(n)
@@ -2975,6 +2984,8 @@ class FnTranslator:
         a = self.eig(obj)
         if name in EIGEN_PASS:
             r = EigVal(a.st, a.rows, a.cols, a.get, lv=a.lv)
+            if hasattr(a, 'sub'):
+                r.sub = a.sub          # array() / matrix() / eval() of a block view is still a view of the same coefficients
             if name == 'array':
                 r.is_array = True
             elif name == 'matrix':
